@@ -232,6 +232,35 @@ func headerSlots(n ast.Node) []*ast.Expr {
 	return out
 }
 
+// endsInBareFuncType: an array/slice or map type whose rightmost component is a function
+// type without results; as conversion function `[]func()(x)` the argument list is read as
+// the result list (the printer parenthesises only a FuncType itself and `*T`).
+func endsInBareFuncType(x ast.Expr) bool {
+	switch t := x.(type) {
+	case *ast.ArrayType:
+		return tailIsBareFunc(t.Elt)
+	case *ast.MapType:
+		return tailIsBareFunc(t.Value)
+	}
+	return false
+}
+
+func tailIsBareFunc(x ast.Expr) bool {
+	switch t := x.(type) {
+	case *ast.FuncType:
+		return t.Results == nil
+	case *ast.ArrayType:
+		return tailIsBareFunc(t.Elt)
+	case *ast.MapType:
+		return tailIsBareFunc(t.Value)
+	case *ast.StarExpr:
+		return tailIsBareFunc(t.X)
+	case *ast.ChanType:
+		return tailIsBareFunc(t.Value)
+	}
+	return false
+}
+
 func sameUnary(op token.Token) bool {
 	switch op {
 	case token.ADD, token.SUB, token.AND:
@@ -244,6 +273,7 @@ func sameUnary(op token.Token) bool {
 // loss is recorded as known findings, and counts them. What it repairs is exactly:
 //   F-C25-1  composite literal with a type name, not enclosed in brackets, in an if/for/range/switch header
 //   F-C25-2  channel type used as conversion function; `<-chan T` as element of a bidirectional or send channel type;
+//            slice/array/map type ending in a result-less function type used as conversion function (`[]func()(x)`);
 //            unary + - & applied to the same unary operator; pointer indirection `*` applied to a binary expression
 //   F-C25-3  (in checkFile) the first print of a built tree is not a formatting fixed point
 func reparen(n ast.Node) {
@@ -265,7 +295,7 @@ func reparen(n ast.Node) {
 		if k2 {
 			switch c := c.(type) {
 			case *ast.CallExpr:
-				if _, ok := c.Fun.(*ast.ChanType); ok {
+				if _, ok := c.Fun.(*ast.ChanType); ok || endsInBareFuncType(c.Fun) {
 					c.Fun = &ast.ParenExpr{X: c.Fun}
 					rec.Excluded("F-C25-2")
 				}
@@ -325,24 +355,39 @@ func checkFile(efs *etoken.FileSet, file *ast.File, built bool) error {
 				return fmt.Errorf("%s: printing the reparsed tree gives different text:\n%s", pr.name, firstDiff(p1, p2))
 			}
 			// known finding F-C25-3: stale positions in rebuilt trees influence the first
-			// layout. Search on behind it: the second text must be a fixed point.
+			// layout(s). Search on behind it: every further round must parse to the same
+			// tree and the text must become a fixed point within maxRounds rounds.
 			rec.Excluded("F-C25-3")
-			efs3 := etoken.NewFileSet()
-			f3, err := astx.ParseStd(&efs3.FileSet, "printed2.go", []byte(p2))
-			if err != nil {
-				return fmt.Errorf("%s: second printed text does not parse: %v", pr.name, err)
-			}
-			for i := range f2.Decls {
-				if err := astx.Equal(normalise(f3.Decls[i], false), normalise(f2.Decls[i], false), astx.Structural); err != nil {
-					return fmt.Errorf("%s: second print of declaration %d parses back to a different tree: %v", pr.name, i, err)
+			const maxRounds = 4
+			prevText, prevFile := p2, f2
+			fixed := false
+			for round := 3; round <= 2+maxRounds; round++ {
+				efsN := etoken.NewFileSet()
+				fN, err := astx.ParseStd(&efsN.FileSet, "printed.go", []byte(prevText))
+				if err != nil {
+					return fmt.Errorf("%s: text of print %d does not parse: %v", pr.name, round-1, err)
 				}
+				if len(fN.Decls) != len(prevFile.Decls) {
+					return fmt.Errorf("%s: print %d parses back to %d declarations instead of %d", pr.name, round-1, len(fN.Decls), len(prevFile.Decls))
+				}
+				for i := range fN.Decls {
+					if err := astx.Equal(normalise(fN.Decls[i], false), normalise(prevFile.Decls[i], false), astx.Structural); err != nil {
+						return fmt.Errorf("%s: print %d of declaration %d parses back to a different tree: %v", pr.name, round-1, i, err)
+					}
+				}
+				pN, err := pr.f(efsN, fN)
+				if err != nil {
+					return fmt.Errorf("%s: print %d: %v", pr.name, round, err)
+				}
+				if pN == prevText {
+					fixed = true
+					rec.Label(fmt.Sprintf("F-C25-3:fixed-point-at-print-%d", round-1))
+					break
+				}
+				prevText, prevFile = pN, fN
 			}
-			p3, err := pr.f(efs3, f3)
-			if err != nil {
-				return fmt.Errorf("%s: third print: %v", pr.name, err)
-			}
-			if p3 != p2 {
-				return fmt.Errorf("%s: printing does not reach a fixed point after two rounds:\n%s", pr.name, firstDiff(p2, p3))
+			if !fixed {
+				return fmt.Errorf("%s: printing does not reach a fixed point within %d rounds", pr.name, 2+maxRounds)
 			}
 		}
 	}
